@@ -26,10 +26,10 @@ Proof.
     destruct E' as [E1 E2]. split; [auto|]. intro i. symmetry. apply E2.
 Qed.
 
-Theorem check_equal_sound : forall l c tag pos diag r,
-  check_equal l = Some (verdict c tag pos diag, r) -> c = 0 \/ c = 1 -> c = 0 /\ r = [] /\ equal_case_ok l.
+Theorem check_equal_sound : forall l c v r,
+  check_equal l = Some (c :: v, r) -> c = 0 \/ c = 1 -> c = 0 /\ r = [] /\ equal_case_ok l.
 Proof.
-  intros l c tag pos diag r H Hc. unfold check_equal in H. pinv H. subst.
+  intros l c v r H Hc. unfold check_equal in H. pinv H. subst.
   destruct (g_wfb a && g_wfb a0) eqn:Ewf; cbn [negb] in Ev; [|rejected Ev].
   apply andb_prop in Ewf. destruct Ewf as [W1 W2]. apply g_wfb_spec in W1, W2.
   cbv zeta in Ev. apply ok_or_mismatch in Ev; [|exact Hc]. destruct Ev as [W ->]. ff_split W.
@@ -61,10 +61,10 @@ Proof.
   - rewrite (IH _ H k l Hk). f_equal. lia.
 Qed.
 
-Theorem check_bigraph_sound : forall l c tag pos diag r,
-  check_bigraph l = Some (verdict c tag pos diag, r) -> c = 0 \/ c = 1 -> c = 0 /\ r = [] /\ bigraph_case_ok l.
+Theorem check_bigraph_sound : forall l c v r,
+  check_bigraph l = Some (c :: v, r) -> c = 0 \/ c = 1 -> c = 0 /\ r = [] /\ bigraph_case_ok l.
 Proof.
-  intros l c tag pos diag r H Hc. unfold check_bigraph in H. pinv H. subst.
+  intros l c v r H Hc. unfold check_bigraph in H. pinv H. subst.
   destruct (g_wfb a) eqn:Ewf; cbn [negb] in Ev; [|rejected Ev]. apply g_wfb_spec in Ewf.
   cbv zeta in Ev. apply ok_or_mismatch in Ev; [|exact Hc]. destruct Ev as [W ->]. ff_split W.
   repeat match goal with H : (_ =? _) = true |- _ => apply Z.eqb_eq in H end.
@@ -177,10 +177,10 @@ Qed.
 Lemma Forall2_map_same {A B} (R : A -> B -> Prop) (f : A -> B) : (forall a, R a (f a)) -> forall l, Forall2 R l (map f l).
 Proof. intros H. induction l; cbn; constructor; auto. Qed.
 
-Theorem check_simplify_sound : forall l c tag pos diag r,
-  check_simplify l = Some (verdict c tag pos diag, r) -> (c = 0 \/ c = 1)%Z -> c = 0%Z /\ r = [] /\ simplify_case_ok l.
+Theorem check_simplify_sound : forall l c v r,
+  check_simplify l = Some (c :: v, r) -> (c = 0 \/ c = 1)%Z -> c = 0%Z /\ r = [] /\ simplify_case_ok l.
 Proof.
-  intros l c tag pos diag r H Hc. unfold check_simplify in H. pinv H. subst.
+  intros l c v r H Hc. unfold check_simplify in H. pinv H. subst.
   destruct (g_wfb a) eqn:Ewf; cbn [negb] in Ev; [|rejected Ev]. apply g_wfb_spec in Ewf.
   destruct (if (a0 =? 0)%Z then Some (unit_weights a) else zipwg a a1) as [wg|] eqn:Ewg; [|rejected Ev].
   destruct (zipwg a3 a4) as [obs|] eqn:Eobs; [|destruct (a2 =? 0)%Z; rejected Ev].
